@@ -43,6 +43,8 @@ class A(Adapter):
         g = ScramblingGenerator(cube_size=c["n"], num_scrambles_on_reset=c["scr"])
         if c.get("tl") is None:
             return RubiksCube(generator=g)
+        if c["tl"] == 2:
+            return RubiksCube(g, c["tl"])  # (time_limit = 2 configurations pass the documented leading parameters positionally)
         return RubiksCube(generator=g, time_limit=c["tl"])
 
     def time_limit(self, env, c):
